@@ -223,6 +223,13 @@ func verify(argv []string) int {
 					has = true
 				}
 			}
+			for _, cs := range fc.Loops {
+				for _, c := range cs {
+					if c.Prop == *prop {
+						has = true
+					}
+				}
+			}
 		}
 		if !has {
 			continue
